@@ -50,6 +50,29 @@ pub mod verif {
                 AsyncRichIndexer::new(store.clone(), None, CustomFilters::new(None, None));
             Self { indexer, store }
         }
+        /// Like `connect_sqlite`, with the custom block / cell filters (rhai sources) that
+        /// `RichIndexerService::new` reads from `IndexerConfig::{block_filter, cell_filter}`.
+        pub async fn connect_sqlite_with_filters(
+            store_path: &str,
+            block_filter: Option<&str>,
+            cell_filter: Option<&str>,
+        ) -> Self {
+            let mut store = SQLXPool::default();
+            let config = RichIndexerConfig {
+                store: store_path.into(),
+                ..Default::default()
+            };
+            store
+                .connect(&config)
+                .await
+                .expect("connect to the rich-indexer sqlite store");
+            let indexer = AsyncRichIndexer::new(
+                store.clone(),
+                None,
+                CustomFilters::new(block_filter, cell_filter),
+            );
+            Self { indexer, store }
+        }
         /// `AsyncRichIndexer::append` (what `IndexerSync::append` of `RichIndexer` blocks on)
         pub async fn append(&self, block: &BlockView) -> Result<(), Error> {
             self.indexer.append(block).await
